@@ -18,6 +18,7 @@
    [sub_b a b]                            a equals b except for absent object members and nulls. *)
 From Gv Require Import lib.Bytes lib.Json C02.Model C02.Spec C07.Model C07.Spec
      C07.ProofsErrors C07.ProofsMono C07.ProofsJson C07.ProofsExamples.
+From Coq Require Import String.
 Open Scope N_scope.
 Open Scope string_scope.
 
